@@ -61,6 +61,9 @@ OnGrid(c) == ParamGrid(c.U, 2)
 (* iteration) is a distance of 3e-5 and more (far above the 1e-6 of the result)                                      *)
 BigLines == {[U |-> x.U, X |-> [i \in DOMAIN x.X |-> Mul(R(64), x.X[i])], Y |-> [i \in DOMAIN x.Y |-> Mul(R(64), x.Y[i])], W |-> <<>>]
                : x \in {y \in Zigzags \cup Lines : Len(y.X) >= 3}}
+(* the same polylines traversed slowly: knots multiplied by 2^18 (time stamps), speeds of 1e-5 per unit of parameter *)
+SlowLines == {[U |-> ScaleKV(x.U, R(262144)).kv, X |-> x.X, Y |-> x.Y, W |-> <<>>] : x \in {y \in Zigzags \cup Lines : Len(y.X) >= 3}}
+SpanMids(c) == LET ks == Knots(c.U) IN {Mid(ks[i], ks[i + 1]) : i \in 1..(Len(ks) - 1)}
 BesideKnots(c) == LET ks == Knots(c.U) IN
   {Sub(ks[i], Q(1, 2097152)) : i \in 2..(Len(ks) - 1)} \cup {Add(ks[i], Q(1, 2097152)) : i \in 2..(Len(ks) - 1)}
 
@@ -77,6 +80,7 @@ MCArgs(name, h, dep) ==
     [] name = "GeoProjectOn" ->
          UNION {{[curve |-> c, u0 |-> u] : u \in OnGrid(c)} : c \in {x \in Arcs : Mine(h, x)}}
          \cup UNION {{[curve |-> c, u0 |-> u] : u \in BesideKnots(c)} : c \in {x \in BigLines : Mine(h, x)}}
+         \cup UNION {{[curve |-> c, u0 |-> u] : u \in SpanMids(c)} : c \in {x \in SlowLines : Mine(h, x)}}
     [] name = "GeoIntersectCurved" ->
          {[A |-> A, B |-> B] : A \in {x \in Arcs \cup FarArcs : Mine(h, x)}, B \in Arcs \cup FarArcs}
     [] name = "GeoLength" ->
@@ -103,6 +107,9 @@ MCArgs(name, h, dep) ==
          \* the same geometry traversed 32768 times faster by one operand (its knots divided by 2^15): the two
          \* derivatives differ by 4-5 orders of magnitude, the crossings are as transversal as before
          \cup {[A |-> A, B |-> [B EXCEPT !.U = ScaleKV(B.U, Q(1, 32768)).kv], elev |-> 0] :
+                  A \in {x \in Zigzags : Mine(h, x)}, B \in {y \in GridSegs : y.X[1] = R(-3)}}
+         \* both operands traversed slowly (knots multiplied by 1024): the Newton system shrinks by 1024^4, the crossings stay
+         \cup {[A |-> [A EXCEPT !.U = ScaleKV(A.U, R(1024)).kv], B |-> [B EXCEPT !.U = ScaleKV(B.U, R(1024)).kv], elev |-> 0] :
                   A \in {x \in Zigzags : Mine(h, x)}, B \in {y \in GridSegs : y.X[1] = R(-3)}}
          \cup {[A |-> [A EXCEPT !.U = ScaleKV(A.U, Q(1, 32768)).kv], B |-> B, elev |-> 0] :
                   A \in {x \in Zigzags : Mine(h, x)}, B \in {y \in GridSegs : y.X[1] = R(-3)}}
